@@ -29,6 +29,7 @@ type Config struct {
 	Merge       map[string]bool // callees executed with path merging (must be statically pure)
 	Tier        int // 0 quick, 1 thorough (read by harnesses through nd.Tier/nd.Bound)
 	Trace       bool
+	FmtInts     bool // fmt.Sprintf renders symbolic integers exactly (forks on the digit count)
 	NoIfConv    bool // disable if-conversion of side-effect-free diamonds (debugging)
 }
 
